@@ -7,10 +7,11 @@ use samlang_ast::{
   mir::{Binary, Expression, INT_32_TYPE, Statement, ZERO},
 };
 
+// The analysis is done in i64, so that differences and negations of i32 values cannot wrap around.
 fn analyze_number_of_iterations_to_break_less_than_guard(
-  initial_guard_value: i32,
-  guard_increment_amount: i32,
-  guarded_value: i32,
+  initial_guard_value: i64,
+  guard_increment_amount: i64,
+  guarded_value: i64,
 ) -> Option<i32> {
   // Condition is already satisfied, so it does not loop.
   if initial_guard_value >= guarded_value {
@@ -23,8 +24,9 @@ fn analyze_number_of_iterations_to_break_less_than_guard(
   }
   let difference = guarded_value - initial_guard_value;
   let count =
-    difference / guard_increment_amount + ((difference % guard_increment_amount != 0) as i32);
-  Some(count)
+    difference / guard_increment_amount + ((difference % guard_increment_amount != 0) as i64);
+  // A count that does not fit in i32 cannot be used to compute final values.
+  if count > (i32::MAX as i64) { None } else { Some(count as i32) }
 }
 
 fn analyze_number_of_iterations_to_break_guard(
@@ -33,6 +35,9 @@ fn analyze_number_of_iterations_to_break_guard(
   operator: GuardOperator,
   guarded_value: i32,
 ) -> Option<i32> {
+  let initial_guard_value = initial_guard_value as i64;
+  let guard_increment_amount = guard_increment_amount as i64;
+  let guarded_value = guarded_value as i64;
   match operator {
     GuardOperator::LT => analyze_number_of_iterations_to_break_less_than_guard(
       initial_guard_value,
